@@ -868,6 +868,7 @@ where
         // Write submeshes
         let submeshes = if !self.submeshes.is_empty() {
             let submeshes = M2Array::new(self.submeshes.len() as u32, current_offset);
+            let submeshes_start = data_section.len();
 
             for submesh in &self.submeshes {
                 let mut submesh_data = Vec::new();
@@ -875,7 +876,8 @@ where
                 data_section.extend_from_slice(&submesh_data);
             }
 
-            current_offset += (self.submeshes.len() * 40) as u32; // Each submesh is 40 bytes
+            // Advance by what was written (a submesh record is 48 bytes)
+            current_offset += (data_section.len() - submeshes_start) as u32;
             submeshes
         } else {
             M2Array::new(0, 0)
